@@ -59,7 +59,9 @@ def main():
         out["demo_with_patch"] = "fails" if rc1 != 0 else "PASSES"
         # demo without patch
         open(os.path.join(wt, ".applied.diff"), "w").write(applied)
-        sh("git reset -q; git apply -R .applied.diff || git checkout -- . ; rm -f .applied.diff", wt)
+        # (files the patch added are removed as well; the demo stays)
+        rel = os.path.relpath(place, wt)
+        sh(f"rm -f .applied.diff; git reset -q; git checkout -- . ; git clean -fdq -e '{rel}'", wt)
         rc2, o2 = sh(meta["demo_cmd"], wt, timeout=900)
         out["demo_without_patch"] = "passes" if rc2 == 0 else "FAILS"
         ok = rc1 != 0 and rc2 == 0
